@@ -19,7 +19,7 @@ from .. import nf, vg
 from ..core import Ctx
 from ..model import AnalysisError
 
-FLOOR = 36
+FLOOR = 46
 EXPLANATION = (
     "Static analysis of rl4co/data/transforms.py and rl4co/tasks/eval.py: polynomial normal forms of the 8 dihedral copies "
     "(signed coordinate permutations, identity first, concatenation on dim 0) and of symmetric_transform (norm preservation as a "
